@@ -66,12 +66,16 @@ impl<P, T> Index<usize> for Table<P, T> {
     type Output = Node<P, T>;
 
     fn index(&self, index: usize) -> &Self::Output {
+        #[cfg(feature = "verif-hooks")]
+        crate::verif_hooks::tick();
         &self.as_ref()[index]
     }
 }
 
 impl<P, T> IndexMut<usize> for Table<P, T> {
     fn index_mut(&mut self, index: usize) -> &mut Self::Output {
+        #[cfg(feature = "verif-hooks")]
+        crate::verif_hooks::tick();
         &mut self.as_mut()[index]
     }
 }
@@ -135,6 +139,8 @@ impl<P, T> Table<P, T> {
     /// reference to that node (neither mutable nor immutable).
     #[allow(clippy::mut_from_ref)]
     pub(crate) unsafe fn get_mut(&self, idx: usize) -> &mut Node<P, T> {
+        #[cfg(feature = "verif-hooks")]
+        crate::verif_hooks::tick();
         // old implementation that caused issues with Miri:
         // unsafe { &mut self.0.get().as_mut().unwrap()[idx] }
 
